@@ -392,6 +392,14 @@ func (l *c12Log) handler(hold time.Duration) dns.HandlerFunc {
 		r.Extra = append(r.Extra, &dns.TXT{Hdr: dns.RR_Header{Name: "digest.", Rrtype: dns.TypeTXT, Class: 1}, Txt: []string{d, fmt.Sprint(l.hseq.Add(1))}})
 		if t := req.IsTsig(); t != nil && ts == "ok" {
 			r.SetTsig(t.Hdr.Name, t.Algorithm, 300, time.Now().Unix())
+		} else if t != nil && ts == dns.ErrTime.Error() {
+			now := time.Now().Unix()
+			r.SetTsig(t.Hdr.Name, t.Algorithm, 300, now)
+			rt := r.Extra[len(r.Extra)-1].(*dns.TSIG)
+			rt.Error = dns.RcodeBadTime
+			rt.OtherLen = 6
+			rt.OtherData = fmt.Sprintf("%012x", now)
+			r.Rcode = dns.RcodeNotAuth
 		}
 		rw.WriteMsg(r)
 	}
@@ -785,6 +793,7 @@ func c12CrossTalk(w *core.W, j int) {
 	var tsigReplyErrs atomic.Int64
 	var firstTsigErr atomic.Value
 	signedKeys := map[string]bool{}
+	staleKeys := map[string]bool{}
 	nclients := []int{4, 8, 16, 32}[j%4]
 	per := 12
 	type sent struct {
@@ -840,7 +849,16 @@ func c12CrossTalk(w *core.W, j int) {
 				}
 				mu.Unlock()
 				if signing {
-					m.SetTsig("crosstalk-key.", dns.HmacSHA256, 300, time.Now().Unix())
+					at := time.Now().Unix()
+					if s%5 == 3 {
+						// a client whose clock is off by more than the fudge: the server sees BADTIME and its
+						// handler answers with a signed BADTIME error (RFC 8945 s.5.2.3), which the client verifies
+						at -= 100000
+						mu.Lock()
+						staleKeys[strings.ToLower(key)] = true
+						mu.Unlock()
+					}
+					m.SetTsig("crosstalk-key.", dns.HmacSHA256, 300, at)
 				}
 				var rep *dns.Msg
 				// (signing clients dial per query: Conn.WriteMsg signs a second query on the same Conn as a
@@ -911,11 +929,16 @@ func c12CrossTalk(w *core.W, j int) {
 	if n := tsigReplyErrs.Load(); n > 0 {
 		w.Violation("C12/signed-reply-rejected/"+network, fmt.Sprintf("%d signed replies failed TSIG verification at their client: %v", n, firstTsigErr.Load()), nil)
 	}
-	nsigned := 0
+	nsigned, nstale := 0, 0
 	for k, st := range log.tsig {
 		if signedKeys[k] {
 			nsigned++
-			if st != "ok" {
+			if staleKeys[k] {
+				nstale++
+				if st != dns.ErrTime.Error() {
+					w.Violation("C12/handler-saw-bad-tsig-status/stale-time/"+network, fmt.Sprintf("request %q was signed 100000 s in the past, its handler saw TsigStatus %q", k, st), nil)
+				}
+			} else if st != "ok" {
 				w.Violation("C12/handler-saw-bad-tsig-status/"+network, fmt.Sprintf("request %q was correctly signed by its client but its handler saw TsigStatus %q", k, st), map[string]any{"scribble": true, "clients": nclients})
 			}
 		} else if st != "none" {
@@ -923,6 +946,7 @@ func c12CrossTalk(w *core.W, j int) {
 		}
 	}
 	w.Count("signed_requests_handled_"+network, nsigned)
+	w.Count("stale_signed_requests_handled_"+network, nstale)
 	for k, n := range log.handled {
 		s, ok := sentBy[k]
 		if !ok {
